@@ -95,6 +95,9 @@ fn main() {
                     _ => usage(),
                 }
             }
+            if tier == Tier::Thorough {
+                driver::DEEP.store(true, std::sync::atomic::Ordering::Relaxed);
+            }
             match check_for(prop) {
                 Some(c) => driver::run_check(c.as_ref(), tier, seed),
                 None => {
